@@ -44,6 +44,12 @@ PROPS = {
         "rule": FW_RULE % "at least one action was returned (heavy-tailed and huge distributions incl. NaN/inf start and max, batches of 0..16 events, machines reaching END via events, LimitReached, CounterZero and Signal)",
         "assumptions": ["virtual clock (1 tick = 1 microsecond) for the 24 h bound"],
     },
+    "C09": {
+        "sub": "fw",
+        "n": {"quick": 4000, "thorough": 300000},
+        "coq_sample": {"quick": 20, "thorough": 200},
+        "rule": FW_RULE % "some machine transitioned to the signal pseudo-state (scenario class: 1-4 machines with signalling transitions on external events, LimitReached, CounterZero and Signal; batches of 1-4 events; ended machines)",
+    },
     "C05": {
         "sub": "fw",
         "n": {"quick": 3000, "thorough": 200000},
